@@ -558,6 +558,9 @@ func main() {
 		{"0 2", "create 2 many", "update-noop 0", "update-same 1", "update 0 77", "dup-create", "delete 1"},
 		{"0 3", "create 1 each", "txn-begin", "create 2 many", "update 0 66", "txn-discard", "txn-begin", "update 0 55", "gql-create", "txn-commit"},
 		{"1 2", "create 2 many", "update 0 71", "update-noop 1", "delete 0"},
+		// a document created and changed inside one transaction: the notification of its first commit is judged at that
+		// commit (age 30, below the subscription's filter), not at the state the transaction ends in
+		{"0 2", "txn-begin", "create 1 each", "update 0 77", "txn-commit", "update 0 20", "txn-begin", "create 1 each", "update 1 88", "update 1 40", "txn-commit"},
 	}
 	caseID := 0
 	for _, d := range directed {
